@@ -42,7 +42,7 @@ func encodingEnabledFor(cfg *ChainCfg, r *ChainReq) bool {
 }
 
 func runC07(x *Ctx) {
-	k := chainKnobs{maxFilters: 2, encoding: true, warm: true, panics: 200, errors: true, plain: true, nested: true, maxPayload: 4096, filterWrites: true, early: true, wfaults: 80}
+	k := chainKnobs{maxFilters: 2, encoding: true, addCE: true, warm: true, panics: 200, errors: true, plain: true, nested: true, maxPayload: 4096, filterWrites: true, early: true, wfaults: 80}
 	maxClients := 3
 	if x.Thorough() {
 		k.maxPayload = 200000
@@ -92,6 +92,16 @@ func checkEncoding(x *Ctx, sc *chainScen, reqs []*ChainReq) {
 			x.Violate("status-differs", "%s: status %d, without encoding %d", what, res.W.Status(), tw.W.Status())
 		}
 		ce := res.W.H["Content-Encoding"]
+		if r.AddCE {
+			// the route function added its own value (a layered coding it applied itself): judged is what is left
+			for i := len(ce) - 1; i >= 0; i-- {
+				if ce[i] == "br" {
+					ce = append(append([]string{}, ce[:i]...), ce[i+1:]...)
+					x.Count("reach:handler-added-its-own-content-encoding")
+					break
+				}
+			}
+		}
 		if r.PreCE != "" {
 			if len(ce) != 1 || ce[0] != r.PreCE {
 				x.Violate("encoded-over-existing-coding", "%s: the writer arrived with Content-Encoding %q, now %v", what, r.PreCE, ce)
